@@ -15,6 +15,9 @@ BUILT = {
  "C06": ("exploration", "runtime monitor: differential against Python's csv module on generated arbitrary-text files; LineEvent hook captures #name/#index reads on every line",
          "Random files (unicode, embedded delimiters/quotes/LF, ragged, blanks) in 4 delimiters x 2 quote chars are run through the real reader; returned lines, headers and per-line header reads are compared with csv.reader on the same bytes. Held = no divergence on the generated files.",
          "csv.reader is the reference parser; header cleaning rule transcribed from LineCounter.clean_headers", "DESIGN.md#c06"),
+ "C13": ("exploration", "runtime monitor: trace-specification checking ('no component / line evaluated after stop or skip fires', 'advance(n) lines have no effects', 'last() fires once on the final line') on LineEvent + EvalEvent hooks, plus the reference evaluator",
+         "Systematic product of control form x position x firing line x scan window x blank layout (about 20k real runs) plus random two-control / onmatch programs; per line the pushes that happened, the components evaluated, matches and counters are compared with the documented behaviour. Known findings F9/F9b attributed by exact emulation.",
+         "reference semantics from stop.md/advance.md/last.md; A1 corner (scan window ending on a blank record) not decided", "DESIGN.md#c13"),
  "C14": ("exploration", "runtime monitor: LineEvent hook on real runs over the exhaustive qualifier x value-history table, compared with a decision function transcribed from docs/assignment.md",
          "Every one of the 256 qualifier subsets x 3-line value histories x rest-matches is executed by the real interpreter and observed per line (value of x, match). Exhaustive for the property quantifier.",
          "decision function (30 lines) transcribed from the property statement; admissible-vote sets where the doc table and priority list disagree (A2)", "DESIGN.md#c14"),
